@@ -31,7 +31,8 @@ def gen_case(rng, lay, tier):
     cons = []
     for k in range(ncons):
         cons.append({"cob": pcob if rng.random() < 0.6 else rng.choice(others), "enabled": rng.random() < 0.8,
-                     "rtr": rng.random() < 0.6, "ncb": rng.randrange(0, 3)})
+                     "rtr": rng.random() < 0.6, "ncb": rng.randrange(0, 3),
+                     "tt": rng.choice([255, 254, 0, 1, 240, 252, 253, 252])})     # the transmission type has no say in the RTR rule
     ops, ts = [], 100
     nb = (sum(n for _, n in lay) + 7) // 8
     for _ in range(25 if tier == "quick" else 80):
